@@ -1041,10 +1041,10 @@ func ssRunCase(id string, in ssInput) Case {
 		return c
 	}
 	if in.Call.M == "commission" && in.Call.VS == "upper" && !ssDemandUpperCaseOperator {
-		// candidate finding (reported, not in known_findings.json): withdrawValidatorCommission given the operator address in
+		// finding F14 (repaired in /repo): withdrawValidatorCommission given the operator address in
 		// upper case - a valid bech32 string, the native message is accepted - makes the precompile panic
 		// (precompiles/common HexAddressFromBech32String looks for the lower-case substring "valoper" and otherwise calls
-		// MustAccAddressFromBech32).  Recorded, not demanded, until it is listed or repaired.
+		// MustAccAddressFromBech32).  Demanded like every other case since the repair.
 		how := "same-outcome"
 		if okA != okB {
 			how = "precompile-fails-native-succeeds"
@@ -1073,7 +1073,7 @@ func ssRunCase(id string, in ssInput) Case {
 
 // ssDemandUpperCaseOperator: see ssRunCase; set to true once the deviation is listed in known_findings.json (class
 // evm:upper-case-operator-address-panics) or repaired in /repo
-const ssDemandUpperCaseOperator = false
+const ssDemandUpperCaseOperator = true // repaired in /repo fd596d1 (F14): demanded
 
 func ssHadOwner(e *ssEnv, signer int) bool {
 	_, found := e.App.StakingKeeper.GetValidator(e.Ctx, sdk.ValAddress(e.acc[signer]))
